@@ -4,6 +4,7 @@ import (
 	"context"
 	"errors"
 	"fmt"
+	"runtime"
 	"sort"
 	"strings"
 	"testing"
@@ -37,6 +38,8 @@ type OLine struct {
 	Cls string         `json:"cls"`
 	Res map[string]Val `json:"res"`
 	Err string         `json:"err"`
+	// Tw: the twin controller's output exists
+	Tw bool `json:"tw"`
 }
 
 var oKeys = []string{"tA/a", "tA/b", "tB/a", "tB/b"}
@@ -135,11 +138,56 @@ func runOutTrack(t *testing.T, tr *vh.Trace, tid string, beh []OCmd) {
 			t.Fatal(err)
 		}
 
+		// the twin: a second controller of the same runtime with a tracking cycle of its own (its output tB/t is of the shared kind)
+		tcmds := make(chan string)
+		tresults := make(chan oResult, 1)
+		twinKey := vh.Key{NS: ns, Typ: vh.StrType, ID: "t"}
+
+		err = r.RegisterController(&rt.Probe{
+			NameV:    "twin",
+			OutputsV: []controller.Output{{Type: vh.StrType, Kind: controller.OutputShared}},
+			RunF: func(ctx context.Context, crt controller.Runtime) error {
+				for {
+					select {
+					case <-ctx.Done():
+						return nil
+					case c := <-tcmds:
+						var opErr error
+
+						switch c {
+						case "tstart":
+							crt.StartTrackingOutputs()
+						case "tmodify":
+							opErr = crt.Modify(ctx, vh.NewRes(twinKey, vh.Obj{Spec: 1, Phase: "running"}), bump)
+						case "tcleanup":
+							opErr = crt.CleanupOutputs(ctx, resource.NewMetadata(ns, vh.StrType, "", resource.VersionUndefined))
+						}
+
+						res := oResult{cls: vh.Class(opErr)}
+						if opErr != nil {
+							res.err = opErr.Error()
+						}
+
+						tresults <- res
+					}
+				}
+			},
+		})
+		if err != nil {
+			t.Fatal(err)
+		}
+
 		runDone := make(chan error, 1)
 
 		go func() { runDone <- r.Run(ctx) }()
 
 		synctest.Wait()
+
+		twinExists := func() bool {
+			_, gerr := st.Get(ctx, twinKey.Pointer())
+
+			return gerr == nil
+		}
 
 		snapshot := func() map[string]Val {
 			out := map[string]Val{}
@@ -159,7 +207,7 @@ func runOutTrack(t *testing.T, tr *vh.Trace, tid string, beh []OCmd) {
 			return out
 		}
 
-		tr.Emit(OLine{Ev: "reset", Tid: tid, Ks: []string{}, Res: snapshot()})
+		tr.Emit(OLine{Ev: "reset", Tid: tid, Ks: []string{}, Res: snapshot(), Tw: twinExists()})
 
 		for _, c := range beh {
 			if c.Ks == nil {
@@ -168,7 +216,12 @@ func runOutTrack(t *testing.T, tr *vh.Trace, tid string, beh []OCmd) {
 
 			line := OLine{Ev: "cmd", Tid: tid, C: c.C, K: c.K, Ks: c.Ks}
 
-			if strings.HasPrefix(c.C, "x") {
+			if strings.HasPrefix(c.C, "t") && c.C != "teardown" {
+				tcmds <- c.C
+
+				res := <-tresults
+				line.Cls, line.Err = res.cls, res.err
+			} else if strings.HasPrefix(c.C, "x") {
 				k := oKey(c.K)
 
 				var xerr error
@@ -205,6 +258,7 @@ func runOutTrack(t *testing.T, tr *vh.Trace, tid string, beh []OCmd) {
 			synctest.Wait()
 
 			line.Res = snapshot()
+			line.Tw = twinExists()
 			tr.Emit(line)
 		}
 
@@ -229,6 +283,14 @@ func TestOutTrack(t *testing.T) {
 	defer tr.Close() //nolint:errcheck
 
 	for i, b := range behs {
+		// every other behaviour on one processor: pooled objects (the trackers) are then handed from one controller to the next
+		prev := runtime.GOMAXPROCS(0)
+		if i%2 == 1 {
+			runtime.GOMAXPROCS(1)
+		}
+
 		runOutTrack(t, tr, fmt.Sprintf("o#%d", i), b)
+
+		runtime.GOMAXPROCS(prev)
 	}
 }
